@@ -11,6 +11,8 @@
      cmdarg  : VL [VN 0; VB name; VN lx] | VL [VN 1; tree]
      call    : VL [VN tag; fields...] in constructor order of Builders.opcall (tags 0..18) *)
 From NC Require Import Model.Base Model.Xml Model.Escape Model.Gating Model.Builders Glue.C09_glue.
+From NC Require Import Model.VendorBuilders.
+From Coq Require Import ZArith.
 
 Definition d_attr (v : val) : qname * bytes :=
   match v with VL [VB ns; VB l; VB x] => (qn ns l, x) | _ => (qn [] [], []) end.
@@ -117,6 +119,107 @@ Definition d_opcall (v : val) : option opcall :=
   | _ => None
   end.
 
+(* ---------------- vendor operation classes (Model/VendorBuilders.v) ----------------
+   run (VL [VN 6; VB mid; vcall])            -> VL [VN 0; tree] | VL [VN 1; VN exn_code] | VL [VN 2] (nothing sent, nothing raised)
+   run (VL [VN 7; VN mode; VB mid; vcall])   -> the same under envelope style mode (0 prefixed | 1 default namespace)
+     docarg  : VL [VN 0; tree] | VL [VN 1; VN code]       elarg : VL [VN 0; tree] | VL [VN 1; VB s]
+     jcfg    : VL [] | VL [VN 0; elarg] | VL [VN 1; VL [VB…]]
+     timeout : VL [] | VL [VN 1; VN negative; VN abs] | VL [VN 2]
+     afilter : VL [VN 0; docarg] | VL [VN 1; VL [VB…]]    cmdsarg : VL [VN 0; VB s] | VL [VN 1; VL [VB…]]
+     vcall   : VL [VN tag; fields…] in constructor order of VendorBuilders.vcall (tags 0..29) *)
+Definition d_doc (v : val) : option docarg :=
+  match v with
+  | VL [VN 0; t] => Some (DocTree (d_tree t))
+  | VL [VN 1; VN c] => Some (DocBad (d_exn c))
+  | _ => None
+  end.
+Definition d_el (v : val) : option elarg :=
+  match v with
+  | VL [VN 0; t] => Some (EElem (d_tree t))
+  | VL [VN 1; VB s] => Some (EStr s)
+  | _ => None
+  end.
+Definition d_optel (v : val) : option (option elarg) :=
+  match v with
+  | VL [] => Some None
+  | VL [x] => match d_el x with Some e => Some (Some e) | None => None end
+  | _ => None
+  end.
+Definition d_jcfg (v : val) : option jcfg :=
+  match v with
+  | VL [] => Some JNone
+  | VL [VN 0; x] => match d_el x with Some e => Some (JOne e) | None => None end
+  | VL [VN 1; l] => Some (JList (unVBs l))
+  | _ => None
+  end.
+Definition d_timeout (v : val) : option jtimeout :=
+  match v with
+  | VL [] => Some TNone
+  | VL [VN 1; VN sg; VN a] => Some (TInt (if N.eqb sg 0 then Z.of_N a else Z.opp (Z.of_N a)))
+  | VL [VN 2] => Some TBad
+  | _ => None
+  end.
+Definition d_optafilter (v : val) : option (option afilter) :=
+  match v with
+  | VL [] => Some None
+  | VL [VL [VN 0; x]] => match d_doc x with Some d => Some (Some (AFDoc d)) | None => None end
+  | VL [VL [VN 1; l]] => Some (Some (AFItems (unVBs l)))
+  | _ => None
+  end.
+Definition d_cmds (v : val) : option cmdsarg :=
+  match v with
+  | VL [VN 0; VB s] => Some (CmStr s)
+  | VL [VN 1; l] => Some (CmList (unVBs l))
+  | _ => None
+  end.
+
+Definition d_vcall (v : val) : option vcall :=
+  match v with
+  | VL [VN 0; c; VB f] => do c' <- d_optstr c; Some (VJCommand c' f)
+  | VL [VN 1; VB f; x] => do x' <- d_optel x; Some (VJGetConfiguration f x')
+  | VL [VN 2; VB f; VB a; c] => do c' <- d_jcfg c; Some (VJLoadConfiguration f a c')
+  | VL [VN 3; VB r; VB f] => Some (VJCompareConfiguration r f)
+  | VL [VN 4; x] => do x' <- d_doc x; Some (VJExecuteRpc x')
+  | VL [VN 5] => Some VJReboot
+  | VL [VN 6] => Some VJHalt
+  | VL [VN 7; cf; t; cm; sy; att; ck] =>
+      do cf' <- d_bool cf; do t' <- d_timeout t; do cm' <- d_optstr cm; do sy' <- d_bool sy; do att' <- d_optstr att;
+      do ck' <- d_bool ck; Some (VJCommit cf' t' cm' sy' att' ck')
+  | VL [VN 8; VB r] => Some (VJRollback r)
+  | VL [VN 9; c] => do c' <- d_optstr c; Some (VSMdCliRawCommand c')
+  | VL [VN 10; cf; t; p; pid; cm; nb] =>
+      do cf' <- d_bool cf; do t' <- d_optstr t; do p' <- d_optstr p; do pid' <- d_optstr pid; do cm' <- d_optstr cm;
+      do nb' <- d_bool nb; Some (VSCommit cf' t' p' pid' cm' nb')
+  | VL [VN 11; c] => do c' <- d_optstr c; Some (VAShowCli c')
+  | VL [VN 12; VB ct; f; dt] => do f' <- d_optafilter f; do dt' <- d_bool dt; Some (VAGetConfiguration ct f' dt')
+  | VL [VN 13; VB f; dop; t; c] =>
+      do dop' <- d_optstr dop; do t' <- d_ds t; do c' <- d_optel c; Some (VALoadConfiguration f dop' t' c')
+  | VL [VN 14; f] => do f' <- d_optfilt f; Some (VHGetBulk f')
+  | VL [VN 15; s; f] => do s' <- d_ds s; do f' <- d_optfilt f; Some (VHGetBulkConfig s' f')
+  | VL [VN 16; x] => do x' <- d_doc x; Some (VHCli x')
+  | VL [VN 17; x] => do x' <- d_doc x; Some (VHAction x')
+  | VL [VN 18; f] => do f' <- d_optstr f; Some (VHSave f')
+  | VL [VN 19; f] => do f' <- d_optstr f; Some (VHLoad f')
+  | VL [VN 20; f] => do f' <- d_optstr f; Some (VHRollback f')
+  | VL [VN 21; c] => do c' <- d_cmds c; Some (VPDisplayCommand c')
+  | VL [VN 22; c] => do c' <- d_cmds c; Some (VPConfigCommand c')
+  | VL [VN 23; x] => do x' <- d_doc x; Some (VPAction x')
+  | VL [VN 24; f] => do f' <- d_optstr f; Some (VPSave f')
+  | VL [VN 25; f] => do f' <- d_optstr f; Some (VPRollback f')
+  | VL [VN 26; x] => do x' <- d_doc x; Some (VWCli x')
+  | VL [VN 27; x] => do x' <- d_doc x; Some (VWAction x')
+  | VL [VN 28] => Some VXSaveConfig
+  | VL [VN 29; l] => Some (VNExecCommand (unVBs l))
+  | _ => None
+  end.
+
+Definition e_vres (r : vres) : val :=
+  match r with
+  | VBuilt t => VL [VN 0; e_tree t]
+  | VRefused e => VL [VN 1; VN (exn_code e)]
+  | VNothing => VL [VN 2]
+  end.
+
 Definition run (v : val) : val :=
   match v with
   | VL [VN 1; p; VB mid; c] =>
@@ -132,5 +235,12 @@ Definition run (v : val) : val :=
   | VL [VN 3; VB s] => VB (escape_attr s)
   | VL [VN 4; VB s] => VB (unescape s)
   | VL [VN 5; VB s] => vbool (xml_chars_ok s)
+  | VL [VN 6; VB mid; c] =>
+      match d_vcall c with Some c' => e_vres (vbuild mid c') | None => verr 1 end
+  | VL [VN 7; VN m; VB mid; c] =>
+      match d_vcall c with
+      | Some c' => e_vres (vbuild_under (if N.eqb m 0 then Prefixed else DefaultNs) mid c')
+      | None => verr 1
+      end
   | _ => verr 1
   end.
